@@ -70,6 +70,8 @@ func modelPoint(o *observation) (chunks [][]byte, sch string, runner bool, cut, 
 			return rAll
 		}
 		switch {
+		case cs.Point == "kill" && cs.Phase == "stdin":
+			return chunks, sched(4, 0), false, 0, 0, true
 		case cs.Point == "kill" && cs.Phase == "running" && !o.Finished:
 			// on a loaded machine the runner may have finished while the node was down
 			g := 0
@@ -144,6 +146,12 @@ func modelPoint(o *observation) (chunks [][]byte, sch string, runner bool, cut, 
 			return append(cs, pattern[:l], pattern[l:total])
 		}
 		switch {
+		case cs.Point == "kill" && cs.Phase == "stdin":
+			return chunks, sched(5, 0), false, 0, 0, true
+		case o.Scenario == "remote-ttl" && cs.Phase == "running" && !o.Finished:
+			return chunks, sched(7, 0), false, 0, 0, true
+		case o.Scenario == "remote-ttl":
+			return nil, "", false, 0, 0, false // the expiry is no operation of the model's programs: a recover case instead
 		case cs.Point == "kill" && cs.Phase == "running" && !o.Finished:
 			return mirror(1), sched(9, 3), false, 0, 0, true
 		case cs.Point == "kill":
@@ -195,6 +203,18 @@ func addCase(sh *shared, o *observation) {
 	}
 	chunks, sch, runner, cut, gap, ok := modelPoint(o)
 	if !ok {
+		if o.Before != nil && o.Finished && o.Cycle2 != nil {
+			// a unit at rest: its record before the kill, the answers of the two restarts
+			b := o.Before
+			extra := "XNone"
+			if b.RemoteNode != "" || o.Kind != "local" {
+				extra = fmt.Sprintf("(XRemote %s %s %s %s)", HxS(b.RemoteNode), HxS(b.RemoteType), HxS(b.RemoteUnit), CoqBool(b.Started))
+			}
+			sh.cf.Add(fmt.Sprintf("VCase %s (mkStatus %d %d %s %s) %d %s", CoqList([]string{HxS("emit")}), b.State, b.Size, HxS(b.WorkType), extra, o.LocalOut,
+				CoqList([]string{obsView(&o.AtRestart), obsView(o.Cycle2)})),
+				fmt.Sprintf("unit at rest scenario=%s point=%s before=%+v restart=%+v again=%+v", o.Scenario, o.Crash, *b, o.AtRestart, *o.Cycle2))
+			return
+		}
 		sh.im.Hist("model:no-counterpart")
 		return
 	}
